@@ -4,6 +4,7 @@ import (
 	"bytes"
 	"fmt"
 	"regexp"
+	"strings"
 	"sync"
 	"text/template"
 
@@ -37,6 +38,25 @@ var helperFuncs = template.FuncMap{
 	"sanitize": func(name string) string {
 		return invalid.ReplaceAllString(name, "_")
 	},
+	// Resource values are arbitrary text. In a double-quoted VCL string, percent-encode
+	// the characters that would terminate the literal or be decoded as an escape sequence,
+	// the parser decodes them back to the original value.
+	"escape": func(v string) string {
+		var buf strings.Builder
+		for i := 0; i < len(v); i++ {
+			c := v[i]
+			if c == '%' || c == '"' || c < 0x20 || c == 0x7f {
+				fmt.Fprintf(&buf, "%%%02X", c)
+				continue
+			}
+			buf.WriteByte(c)
+		}
+		return buf.String()
+	},
+	// A line comment ends at the first line feed
+	"oneline": func(v string) string {
+		return strings.NewReplacer("\r\n", " ", "\r", " ", "\n", " ").Replace(v)
+	},
 	"objectify": func(p Phase) string {
 		switch p {
 		case RequestPhase:
@@ -54,11 +74,12 @@ var helperFuncs = template.FuncMap{
 
 var dictionaryTemplate = template.Must(
 	template.New("dictionary").
+		Funcs(helperFuncs).
 		Parse(
 			`
 table {{ .Name }} STRING {
   {{- range .Items }}
-  "{{ .Key }}": "{{ .Value }}",
+  "{{ .Key | escape }}": "{{ .Value | escape }}",
   {{- end }}
 }
 `,
@@ -66,11 +87,12 @@ table {{ .Name }} STRING {
 
 var aclTemplate = template.Must(
 	template.New("acl").
+		Funcs(helperFuncs).
 		Parse(
 			`
 acl {{ .Name }} {
 	{{- range .Entries }}
-	{{ if .Negated }}!{{ end }}"{{ .Ip }}"{{ if .Subnet }}/{{ .Subnet }}{{ end }};{{ if .Comment }}  # {{ .Comment }}{{ end }}
+	{{ if .Negated }}!{{ end }}"{{ .Ip | escape }}"{{ if .Subnet }}/{{ .Subnet }}{{ end }};{{ if .Comment }}  # {{ .Comment | oneline }}{{ end }}
 	{{- end }}
 }
 `,
@@ -82,7 +104,7 @@ var backendTemplate = template.Must(
 		Parse(
 			`
 backend F_{{ .Name | sanitize }} {
-	{{ if .Address }}.host = "{{.Address}}";{{ end }}
+	{{ if .Address }}.host = "{{ .Address | escape }}";{{ end }}
 }
 `,
 		))
@@ -100,7 +122,7 @@ director {{ .Name | sanitize }} {{ .Type | printtype }} {
 	{{- end }}
 	.quorum = {{ .Quorum }}%;
 	{{- range .Backends }}
-	{ .backend = F_{{ . }}; .weight = 1; }
+	{ .backend = F_{{ . | sanitize }}; .weight = 1; }
 	{{- end }}
 }
 `,
@@ -113,9 +135,9 @@ var shieldDirectorTemplate = template.Must(
 		Parse(
 			`
 // falco-ignore-next-line
-director {{ .Name }} {{ .Type | printtype }} {
+director {{ .Name | sanitize }} {{ .Type | printtype }} {
 	{{- range .Backends }}
-	{ .backend = {{ . }}; .weight = 1; }
+	{ .backend = {{ . | sanitize }}; .weight = 1; }
 	{{- end }}
 }
 `,
@@ -145,11 +167,11 @@ var headerTemplate = template.Must(
 {{end -}}
 
 {{- if eq .Action "regex" -}}
-	set {{ .Type | objectify }}.{{ .Destination }} = regsub({{ .Source }}, "{{ .Regex }}", "{{ .Substitution }}");
+	set {{ .Type | objectify }}.{{ .Destination }} = regsub({{ .Source }}, "{{ .Regex | escape }}", "{{ .Substitution | escape }}");
 {{end -}}
 
 {{- if eq .Action "regex_repeat" -}}
-	set {{ .Type | objectify }}.{{ .Destination }} = regsuball({{ .Source }}, "{{ .Regex }}", "{{ .Substitution }}");
+	set {{ .Type | objectify }}.{{ .Destination }} = regsuball({{ .Source }}, "{{ .Regex | escape }}", "{{ .Substitution | escape }}");
 {{end -}}
 
 {{if .IgnoreIfSet }}{{"}"}}{{- end}}
@@ -169,12 +191,13 @@ var responseObjectConditionTemplate = template.Must(
 
 var responseObjectTemplate = template.Must(
 	template.New("responseobject").
+		Funcs(helperFuncs).
 		Parse(
 			`
 if (obj.status == {{ .StatusCode }}) {{"{"}}
 	set obj.status = {{ .Status }};
-	set obj.http.Content-Type = "{{ .ContentType }}";
-	synthetic {{"{\""}}{{if .Content }}{{ .Content }}{{else}}{{ .Response }}{{end}}{{"\"}"}};
+	set obj.http.Content-Type = "{{ .ContentType | escape }}";
+	synthetic "{{if .Content }}{{ .Content | escape }}{{else}}{{ .Response | escape }}{{end}}";
 	return(deliver);
 {{"}"}}
 `,
